@@ -4,7 +4,8 @@
 (*                                                                         *)
 (* Three entities:  P(id, ks = Set(K, cascade_delete=True),                *)
 (*                       rs = Set(R))   -- ks is declared BEFORE rs        *)
-(*                  K(id, p = Required(P))   deleted with its parent       *)
+(*                  K(id, p = Required(P), w = Optional(int))              *)
+(*                                           deleted with its parent       *)
 (*                  R(id, p = Required(P))   no cascade: refuses the delete*)
 (* P[1].delete() first cascades over ks (deleting the K objects, cancelling*)
 (* the ones created in this session) and only then meets rs; if an R       *)
@@ -12,13 +13,14 @@
 (* before: the K objects exist with the same status, are found by primary  *)
 (* key as the same Python objects, belong to P[1].ks, and a later commit   *)
 (* writes exactly the session's view (a K created before the refused       *)
-(* delete is still inserted).                                              *)
+(* delete is still inserted, a K modified before it is still updated:      *)
+(* field W = the K objects whose attribute w is set).                      *)
 (***************************************************************************)
 EXTENDS Integers, FiniteSets, TLC
 
 CONSTANTS KIds, RIds, MaxLevel
 
-VARIABLES db, cur,     \* [p |-> BOOLEAN, K |-> SUBSET KIds, R |-> SUBSET RIds]   (all children belong to P[1])
+VARIABLES db, cur,     \* [p |-> BOOLEAN, K |-> SUBSET KIds, R |-> SUBSET RIds, W |-> SUBSET KIds]   (all children belong to P[1])
           new,         \* K/R objects created by the session, not flushed: <<e, k>>
           dead,        \* objects deleted by the session: their keys are not reused in this model (a deleted object may
                        \* keep its key until the next flush, which can happen implicitly before any query)
@@ -27,8 +29,9 @@ VARIABLES db, cur,     \* [p |-> BOOLEAN, K |-> SUBSET KIds, R |-> SUBSET RIds] 
 vars == <<db, cur, new, dead, sess, ev>>
 Ev(op, e, k, out, ret) == [op |-> op, e |-> e, k |-> k, out |-> out, ret |-> ret]
 
-Seeds == {[p |-> TRUE, K |-> {}, R |-> {}], [p |-> TRUE, K |-> {1}, R |-> {}],
-          [p |-> TRUE, K |-> {1}, R |-> {1}], [p |-> TRUE, K |-> {}, R |-> {1}]}
+Seeds == {[p |-> TRUE, K |-> {}, R |-> {}, W |-> {}], [p |-> TRUE, K |-> {1}, R |-> {}, W |-> {}],
+          [p |-> TRUE, K |-> {1}, R |-> {1}, W |-> {}], [p |-> TRUE, K |-> {}, R |-> {1}, W |-> {}],
+          [p |-> TRUE, K |-> {1}, R |-> {1}, W |-> {1}]}
 
 Init == db \in Seeds /\ cur = db /\ new = {} /\ dead = {} /\ sess = "none" /\ ev = Ev("Init", "-", 0, "ok", {})
 
@@ -44,30 +47,36 @@ DeleteR(k) == /\ sess = "open" /\ k \in cur.R
               /\ cur' = [cur EXCEPT !.R = @ \ {k}] /\ new' = new \ {<<"R", k>>} /\ dead' = dead \cup {<<"R", k>>}
               /\ ev' = Ev("Delete", "R", k, "ok", {}) /\ UNCHANGED <<db, sess>>
 DeleteK(k) == /\ sess = "open" /\ k \in cur.K
-              /\ cur' = [cur EXCEPT !.K = @ \ {k}] /\ new' = new \ {<<"K", k>>} /\ dead' = dead \cup {<<"K", k>>}
+              /\ cur' = [cur EXCEPT !.K = @ \ {k}, !.W = @ \ {k}] /\ new' = new \ {<<"K", k>>} /\ dead' = dead \cup {<<"K", k>>}
               /\ ev' = Ev("Delete", "K", k, "ok", {}) /\ UNCHANGED <<db, sess>>
+
+(* K[k].w = 1 / None: a plain modification of a child (queued for UPDATE unless the object is new) *)
+SetW(k) == /\ sess = "open" /\ k \in cur.K
+           /\ cur' = [cur EXCEPT !.W = IF k \in @ THEN @ \ {k} ELSE @ \cup {k}]
+           /\ ev' = Ev("SetW", "K", k, "ok", {}) /\ UNCHANGED <<db, new, dead, sess>>
 
 (* P[1].delete(): cascade over ks, then refusal by rs - or success *)
 DeleteP == /\ sess = "open" /\ cur.p
            /\ IF cur.R # {}
               THEN ev' = Ev("Delete", "P", 1, "ConstraintError", {}) /\ UNCHANGED <<db, cur, new, dead, sess>>     \* C13: nothing changes
-              ELSE /\ cur' = [p |-> FALSE, K |-> {}, R |-> {}] /\ new' = {} /\ dead' = dead \cup {<<"K", k>> : k \in cur.K}
+              ELSE /\ cur' = [p |-> FALSE, K |-> {}, R |-> {}, W |-> {}] /\ new' = {} /\ dead' = dead \cup {<<"K", k>> : k \in cur.K}
                    /\ ev' = Ev("Delete", "P", 1, "ok", {}) /\ UNCHANGED <<db, sess>>
 
 (* what the program can observe (asked by the replay in every state): which objects exist, P[1].ks, P[1].rs *)
 Look == /\ sess = "open"
-        /\ ev' = Ev("Look", "-", 0, "ok", {<<"K", k>> : k \in cur.K} \cup {<<"R", k>> : k \in cur.R} \cup (IF cur.p THEN {<<"P", 1>>} ELSE {}))
+        /\ ev' = Ev("Look", "-", 0, "ok", {<<"K", k>> : k \in cur.K} \cup {<<"R", k>> : k \in cur.R} \cup {<<"W", k>> : k \in cur.W}
+                                          \cup (IF cur.p THEN {<<"P", 1>>} ELSE {}))
         /\ UNCHANGED <<db, cur, new, dead, sess>>
 
 End == sess = "open" /\ sess' = "none" /\ db' = cur /\ new' = {} /\ dead' = {} /\ ev' = Ev("End", "-", 0, "ok", {}) /\ UNCHANGED cur
 EndExc == sess = "open" /\ sess' = "none" /\ new' = {} /\ dead' = {} /\ ev' = Ev("EndExc", "-", 0, "ok", {}) /\ UNCHANGED <<db, cur>>
 
 Next == \/ Begin \/ End \/ EndExc \/ DeleteP \/ Look
-        \/ \E k \in KIds : CreateK(k) \/ DeleteK(k)
+        \/ \E k \in KIds : CreateK(k) \/ DeleteK(k) \/ SetW(k)
         \/ \E k \in RIds : CreateR(k) \/ DeleteR(k)
 
 Bounded == TLCGet("level") <= MaxLevel
-NoOrphans == ~db.p => db.K = {} /\ db.R = {}
+NoOrphans == (~db.p => db.K = {} /\ db.R = {}) /\ db.W \subseteq db.K /\ cur.W \subseteq cur.K
 StepProps == /\ Assert(ev'.out # "ok" => (db' = db /\ cur' = cur /\ new' = new /\ dead' = dead /\ sess' = sess), "a refused delete changed the session")
              /\ Assert(db' # db => (ev'.op = "End" /\ db' = cur), "database changed outside a commit")
 =============================================================================
